@@ -49,7 +49,7 @@ REAL_VS_STUB = {
              'CPython containers and allocator (malloc under ASan)'],
     'stub_or_simulator_owned': ['all user callbacks', 'which container is mutated how at which callback', 'GC timing'],
 }
-EXPECTED_PROBES = ('field-liar-sweep', 'state:field', 'state:bytes-flip', 'state:drop-node', 'state-load:loaded', 'state-load:rejected', 'liar-sweep', 'mismatch-sweep', 'mut:rotate', 'index-sweep', 'leafcount-sweep', 'mut:delete_front', 'mut:delete_back', 'mut:clear', 'mut:append', 'mut:replace', 're:iter_next',
+EXPECTED_PROBES = ('field-liar-sweep', 'state:legacy-layout', 'state:field', 'state:bytes-flip', 'state:drop-node', 'state-load:loaded', 'state-load:rejected', 'liar-sweep', 'mismatch-sweep', 'mut:rotate', 'index-sweep', 'leafcount-sweep', 'mut:delete_front', 'mut:delete_back', 'mut:clear', 'mut:append', 'mut:replace', 're:iter_next',
                    're:flatten', 're:unflatten', 're:register', 're:gc', 're:dictmode', 'outcome:exception', 'outcome:consistent')
 
 TRAVERSALS = ('flatten', 'flatten_with_path', 'iter', 'flatten_up_to', 'map', 'map_with_path', 'broadcast_prefix',
@@ -1144,7 +1144,7 @@ def run_confusion(job, io):
 # used through every method.  Oracle: memory safety only (process survival, sanitizer silence, no hang).
 STATE_FIELDS = ('kind', 'arity', 'node_data', 'entries', 'custom_type', 'num_leaves', 'num_nodes', 'original_keys')
 STATE_CORRUPTIONS = ('field', 'field', 'field', 'drop-node', 'dup-node', 'swap-nodes', 'truncate', 'empty', 'flag', 'bytes-flip', 'bytes-truncate',
-                     'node-width')
+                     'node-width', 'legacy-layout')
 
 
 def corrupt_value(t, fi, cur):
@@ -1264,6 +1264,10 @@ def run_state(job, io):
                 nodes = nodes[:tape.draw(len(nodes), 'st-cut')]
             elif how == 'empty':
                 nodes = []
+            elif how == 'legacy-layout':
+                # not a corruption: the 7-field node layout of older releases, which the loader still accepts (no hidden
+                # insertion-order list on dict / defaultdict nodes); everything must work on what it loads
+                nodes = [n[:7] for n in nodes]
             elif how == 'node-width':
                 j = tape.draw(len(nodes), 'st-node')
                 nodes[j] = nodes[j][:tape.draw(9, 'st-width')] if tape.draw(2, 'st-grow') else nodes[j] + [None]
